@@ -10,19 +10,36 @@ from .core import (Conc, Z, TupV, ExcV, ObjV, BoundM, FuncV, OPAQUE_STR, OpaqueS
                    Untranslatable, PathEnd, fresh, EXC_BASES)
 from .theory import BaseTheory
 
-S = z3.StringSort()
+S = z3.DeclareSort("Str")         # strings are uninterpreted values: no string theory in any VC
 I = z3.IntSort()
 B = z3.BoolSort()
 
+strlen = z3.Function("str_len", S, I)
+strcat = z3.Function("str_concat", S, S, S)
+litid = z3.Function("literal_id", S, I)
 cnt = z3.Function("str_count", S, S, I, I, I)        # doc.count(sub, start, end)
 rfind = z3.Function("str_rfind", S, S, I, I, I)      # doc.rfind(sub, start, end)
 find = z3.Function("str_find", S, S, I, I)           # doc.find(sub, start)
 casefold = z3.Function("str_casefold", S, S)
+prefixof = z3.Function("str_startswith", S, S, B)
+suffixof = z3.Function("str_endswith", S, S, B)
+_LITS = {}
+
+
+def lit(text):
+    """The constant standing for a string literal (distinct literals are distinct values)."""
+    if text not in _LITS:
+        _LITS[text] = (z3.Const(f"lit_{len(_LITS)}", S), len(_LITS))
+    return _LITS[text][0]
+
+
+def lit_facts():
+    return [litid(c) == k for c, k in _LITS.values()] + [strlen(c) == len(t) for t, (c, k) in _LITS.items()]
 
 
 def sval(v):
     if isinstance(v, Conc) and isinstance(v.v, str):
-        return z3.StringVal(v.v)
+        return lit(v.v)
     if isinstance(v, Z) and v.kind in ("str", "tok"):
         return v.t
     return None
@@ -32,7 +49,16 @@ class ObjTheory(BaseTheory):
     name = "T_str"
 
     def axioms(self):
-        return []
+        x = z3.Const("sx", S)
+        return [z3.ForAll([x], strlen(x) >= 0, patterns=[strlen(x)])]
+
+    def expand(self, formulas, lazies):
+        return lit_facts()
+
+    def fresh_of_kind(self, kind, nm):
+        if kind == "str":
+            return Z("str", fresh(nm, S))
+        return super().fresh_of_kind(kind, nm)
 
     def make_self(self, ex, fv):
         return ObjV("self", cls=fv.cls_name, info={"oid": "self"})
@@ -81,6 +107,8 @@ class ObjTheory(BaseTheory):
     def truth(self, ex, v):
         if isinstance(v, OpaqueStr):
             raise Untranslatable("truth of an opaque message string")
+        if isinstance(v, Z) and v.kind in ("str", "tok"):
+            return strlen(v.t) > 0
         return super().truth(ex, v)
 
     def getslice(self, ex, recv, lo, hi):
@@ -96,7 +124,7 @@ class ObjTheory(BaseTheory):
     def binop(self, ex, op, a, b):
         sa, sb = sval(a), sval(b)
         if isinstance(op, ast.Add) and sa is not None and sb is not None:
-            return Z("str", z3.Concat(sa, sb))
+            return Z("str", strcat(sa, sb))
         return super().binop(ex, op, a, b)
 
     def eq(self, ex, a, b):
@@ -130,12 +158,12 @@ class ObjTheory(BaseTheory):
             if name == "count":
                 sub = sval(args[0])
                 lo = ex.as_int(args[1]) if len(args) > 1 else z3.IntVal(0)
-                hi = ex.as_int(args[2]) if len(args) > 2 else z3.Length(s)
+                hi = ex.as_int(args[2]) if len(args) > 2 else strlen(s)
                 return Z("int", cnt(s, sub, lo, hi))
             if name == "rfind":
                 sub = sval(args[0])
                 lo = ex.as_int(args[1]) if len(args) > 1 else z3.IntVal(0)
-                hi = ex.as_int(args[2]) if len(args) > 2 else z3.Length(s)
+                hi = ex.as_int(args[2]) if len(args) > 2 else strlen(s)
                 return Z("int", rfind(s, sub, lo, hi))
             if name == "find":
                 sub = sval(args[0])
@@ -146,16 +174,16 @@ class ObjTheory(BaseTheory):
             if name in ("split", "join", "format", "strip", "upper", "lower"):
                 return OPAQUE_STR
             if name == "startswith" and sval(args[0]) is not None:
-                return Z("bool", z3.PrefixOf(sval(args[0]), s))
+                return Z("bool", prefixof(s, sval(args[0])))
             if name == "endswith" and sval(args[0]) is not None:
-                return Z("bool", z3.SuffixOf(sval(args[0]), s))
+                return Z("bool", suffixof(s, sval(args[0])))
         return super().call_method(ex, recv, name, args, kwargs)
 
     def b_len(self, ex, args, kwargs):
         (v,) = args
         s = sval(v)
         if s is not None and not isinstance(v, Conc):
-            return Z("int", z3.Length(s))
+            return Z("int", strlen(s))
         return super().b_len(ex, args, kwargs)
 
     def result_conforms(self, ex, res_kind, v):
